@@ -43,6 +43,7 @@ from .core import (
 _real_dict, _real_set, _real_isinstance, _real_str, _real_len, _real_sorted = dict, set, isinstance, str, len, sorted
 _real_repr, _real_int, _real_hash, _real_id, _real_bool = repr, int, hash, id, bool
 _real_frozenset = frozenset
+_real_list = list
 
 PREFIX = "sxi_"
 
@@ -283,7 +284,12 @@ class SSet(_real_set, metaclass=_M):
         return x in self._d
 
     def __iter__(self):
-        return iter(self._d.keys())
+        ks = _real_list(self._d.keys())
+        order = ENV.get("set_order")
+        if order is not None and len(ks) > 1:
+            # the iteration order of a real set follows the hash seed: the harness may make it a solver-chosen permutation
+            ks = order(ks)
+        return iter(ks)
 
     def __len__(self):
         return len(self._d)
@@ -292,13 +298,13 @@ class SSet(_real_set, metaclass=_M):
         return _real_bool(self._d)
 
     def copy(self):
-        return SSet(self)
+        return SSet(self._d.keys())
 
     def clear(self):
         self._d = SDict()
 
     def union(self, *others):
-        r = SSet(self)
+        r = SSet(self._d.keys())
         r.update(*others)
         return r
 
@@ -312,7 +318,7 @@ class SSet(_real_set, metaclass=_M):
         return self
 
     def intersection(self, o):
-        return SSet([x for x in self if sx_contains(o, x)])
+        return SSet([x for x in self._d.keys() if sx_contains(o, x)])
 
     def __and__(self, o):
         return self.intersection(o)
@@ -320,7 +326,7 @@ class SSet(_real_set, metaclass=_M):
     __rand__ = __and__
 
     def difference(self, *others):
-        return SSet([x for x in self if not any(sx_contains(o, x) for o in others)])
+        return SSet([x for x in self._d.keys() if not any(sx_contains(o, x) for o in others)])
 
     def __sub__(self, o):
         return self.difference(o)
@@ -338,7 +344,7 @@ class SSet(_real_set, metaclass=_M):
         return self
 
     def issubset(self, o):
-        return all(sx_contains(o, x) for x in self)
+        return all(sx_contains(o, x) for x in self._d.keys())
 
     def issuperset(self, o):
         return all(x in self for x in o)
